@@ -531,10 +531,16 @@ func (c *ctlRun) final(steps []CtlStep) {
 		switch st.Act.O {
 		case "accepted":
 			wantDisc := 0
-			if h.Done {
-				wantDisc = 1
+			if pc := last.Pc[h.ID-1]; pc == "ended" || pc == "done" {
+				wantDisc = 1 // the record is written when the proxy returns, before the release
 			}
-			if conn != 1 || disc != wantDisc {
+			either := false
+			for _, x := range last.Cancelled {
+				if x == h.ID && wantDisc == 0 {
+					either = true // told to stop by its peer; its proxy may already have returned
+				}
+			}
+			if conn != 1 || (disc != wantDisc && !(either && disc == 1)) {
 				c.div("C11", "connect-records", "attempt %d (accepted, released=%v) has %d connect and %d disconnect records", h.ID, h.Done, conn, disc)
 			}
 		case "refused":
